@@ -95,6 +95,18 @@ def proc_ids(pid):
     return out
 
 
+def have_ipv6():
+    try:
+        s = socket.socket(socket.AF_INET6, socket.SOCK_STREAM)
+        try:
+            s.bind(("::1", 0))
+        finally:
+            s.close()
+        return True
+    except OSError:
+        return False
+
+
 def free_port():
     s = socket.socket()
     s.bind(("127.0.0.1", 0))
@@ -223,6 +235,10 @@ class Server:
             self.port = free_port()
             self.addr = ("127.0.0.1", self.port)
             self.bind = "127.0.0.1:%d" % self.port
+        elif bind == "tcp6":
+            self.port = free_port()
+            self.addr = ("::1", self.port)
+            self.bind = "[::1]:%d" % self.port
         else:
             self.sockpath = os.path.join(self.dir, "g.sock")
             self.addr = self.sockpath
@@ -452,7 +468,7 @@ class Server:
 
 def connect(addr, timeout=5.0):
     if isinstance(addr, tuple):
-        s = socket.socket(socket.AF_INET, socket.SOCK_STREAM)
+        s = socket.socket(socket.AF_INET6 if ":" in addr[0] else socket.AF_INET, socket.SOCK_STREAM)
     else:
         s = socket.socket(socket.AF_UNIX, socket.SOCK_STREAM)
     s.settimeout(timeout)
